@@ -210,6 +210,7 @@ def run_case(c):
     # MAP state / single position: a Samples object WITHOUT samples and a bare position, each with a
     # `func`; the statistics must be those of func(position) as one sample
     import jax as _jax
+    import jax.numpy as jnp
     half = lambda t: _jax.tree_util.tree_map(lambda a: 0.5 * a, t)       # noqa: E731
     pos = {k: v[0] for k, v in resid["latent_variables"].items()}
     mp = {}
@@ -229,7 +230,29 @@ def run_case(c):
             mp[name][k] = {"mean": complex(np.asarray(a.mean)[0]), "rcs": float(np.asarray(a.reduced_chisq)[0]),
                            "ndof": int(a.ndof), "same_as_explicit_sample": bool(same)}
     mp_arrays = {k: [0.5 * v] for k, v in pos.items()}
-    return {"resid": resid, "classic": classic, "jax": jx, "map": mp, "map_arrays": mp_arrays}
+    # INTEGER residual dtypes: an integer position, and a func returning integer arrays; real (not
+    # complex) residuals whatever the dtype: ndof = size, same statistics as the same values as floats
+    ints = {k: np.nan_to_num(np.clip(np.rint(np.real(v)), -6, 6), nan=1.0).astype(np.int64) for k, v in pos.items()}
+    flt = {k: v.astype(np.float64) for k, v in ints.items()}
+    to_int = lambda t: _jax.tree_util.tree_map(lambda a: a.astype(jnp.int64), t)       # noqa: E731
+    ip = {}
+    try:
+        ref_i = jft.reduced_residual_stats(flt)
+        icalls = {"int64_position": jft.reduced_residual_stats(ints),
+                  "func_returning_int64": jft.reduced_residual_stats(flt, to_int),
+                  "samples_func_int64": jft.reduced_residual_stats(jft.Samples(pos={k: np.zeros_like(v) for k, v in flt.items()},
+                                                                               samples={k: np.stack([v, v]) for k, v in flt.items()}), to_int)}
+        for name, st in icalls.items():
+            ip[name] = {}
+            for k in ints:
+                a, b = st[k], ref_i[k]
+                same = all(np.array_equal(np.asarray(getattr(a, f)), np.asarray(getattr(b, f)), equal_nan=True) for f in ("mean", "reduced_chisq", "ndof"))
+                ip[name][k] = {"mean": complex(np.asarray(a.mean)[0]), "rcs": float(np.asarray(a.reduced_chisq)[0]),
+                               "ndof": int(a.ndof), "same_as_float": bool(same)}
+    except Exception as e:  # noqa
+        ip = {"error": {k: {"error": "%s: %s" % (type(e).__name__, str(e)[:200])} for k in ints}}
+    int_arrays = {k: [v] for k, v in flt.items()}
+    return {"resid": resid, "classic": classic, "jax": jx, "map": mp, "map_arrays": mp_arrays, "int": ip, "int_arrays": int_arrays}
 
 
 # --------------------------------------------------------------------------------------------------
@@ -366,6 +389,14 @@ def direct_failures(c, o):
             if not v["same_as_explicit_sample"]:
                 out.append(({"api": "jax", "class": "map-state"}, "JAX diagnostics, %s, key %s: chi2=%r mean=%r differ from the statistics of func(position) passed as one explicit sample" % (name, k, v["rcs"], v["mean"])))
                 break
+    for name, per in o.get("int", {}).items():
+        for k, v in per.items():
+            if "error" in v:
+                out.append(({"api": "jax", "class": "exception"}, "JAX diagnostics on integer residuals raised %s" % v["error"]))
+                break
+            if not v["same_as_float"]:
+                out.append(({"api": "jax", "class": "integer-dtype"}, "JAX diagnostics, %s, key %s: chi2=%r mean=%r ndof=%d differ from the statistics of the same values given as floats (integer residuals are real: ndof = size)" % (name, k, v["rcs"], v["mean"], v["ndof"])))
+                break
     return out
 
 
@@ -434,11 +465,16 @@ class C36(C.Check):
                 for k, arrs in o["map_arrays"].items():
                     checks.append(jax_term(arrs, o["map"][name][k], c["cplx"]))
                     where.append((ci, "map:" + name, k, "jax"))
+        for ci, (c, o) in enumerate(self.obs):
+            for name in o["int"]:
+                for k, arrs in o["int_arrays"].items():
+                    checks.append(jax_term(arrs, o["int"][name][k], False))
+                    where.append((ci, "int:" + name, k, "jax"))
         bad = C.eval_cases(self.prop, "corr_p%d" % os.getpid(), HEADER, checks)
         for i in bad[:4]:
             ci, sec, k, api = where[i]
             ob = self.obs[ci][1]
-            seen_ = ob["map"][sec[4:]][k] if sec.startswith("map:") else ob[api][sec][k]
+            seen_ = ob["map"][sec[4:]][k] if sec.startswith("map:") else (ob["int"][sec[4:]][k] if sec.startswith("int:") else ob[api][sec][k])
             res.add_broken("correspondence", "%s diagnostics vs coq/C36/Model.v" % api,
                            {"case": cases[ci], "section": sec, "key": k, "check": checks[i][:1500],
                             "observed": {a: str(b) for a, b in seen_.items()}})
